@@ -121,7 +121,11 @@ func RunPlanPre(p *plan.Plan, between Between, pre func(dir string)) (*RunResult
 				return res, fmt.Errorf("between: %w", err)
 			}
 		}
-		ir, err := runChild(dir, planPath, i)
+		procs := 2
+		if v, ok := p.Params["child_gomaxprocs"]; ok {
+			procs = paramInt(v, 2)
+		}
+		ir, err := runChild(dir, planPath, i, procs)
 		if err != nil {
 			return res, err
 		}
@@ -143,7 +147,7 @@ func (r *RunResult) Cleanup() {
 	}
 }
 
-func runChild(dir, planPath string, inc int) (*IncResult, error) {
+func runChild(dir, planPath string, inc int, goMaxProcs int) (*IncResult, error) {
 	jpath := filepath.Join(dir, fmt.Sprintf("journal.%d", inc))
 	_ = os.Remove(jpath)
 	ctx, cancel := context.WithTimeout(context.Background(), childWall)
@@ -152,8 +156,11 @@ func runChild(dir, planPath string, inc int) (*IncResult, error) {
 	cmd.Dir = dir
 	cmd.Env = append(os.Environ(),
 		"SIM_PLAN="+planPath, fmt.Sprintf("SIM_INC=%d", inc), "SIM_JOURNAL="+jpath,
-		"GOMAXPROCS=2", "GOTRACEBACK=single", "TMPDIR="+dir,
+		fmt.Sprintf("GOMAXPROCS=%d", goMaxProcs), "GOTRACEBACK=single", "TMPDIR="+dir,
 	)
+	if os.Getenv("VERIF_DET_DUMP") != "" {
+		cmd.Env = append(cmd.Env, "SIM_TRACE=1")
+	}
 	var stderr bytes.Buffer
 	cmd.Stdout = &stderr
 	cmd.Stderr = &stderr
